@@ -220,7 +220,7 @@ def _gen_inputs(tier, rng):
     yield {"op": "util", "grid": allp[:3], "border": []}
     yield {"op": "util", "grid": [], "border": [[0, 0], [16, 0]]}
     # ---- (a) util, random
-    for _ in range(2000 if big else 150):
+    for _ in range(1000 if big else 150):
         b = rand_border(rng)
         yield {"op": "util", "grid": rand_points(rng, b, rng.randint(1, 10)), "border": b}
     # ---- (c) exhaustive masks
@@ -237,7 +237,7 @@ def _gen_inputs(tier, rng):
                 yield {"op": "subborder", "mask": m, "sub": {"kind": "ndarray", "v": [rng.choice([1, 2, 4]) for _ in range(n)]},
                        "via": "util" if (n + w) % 2 else "class"}
     # ---- (b), (c) random masks through the public classes
-    for i in range(2400 if big else 180):
+    for i in range(1200 if big else 180):
         while True:
             m = rand_mask(rng); n = npix(m); sub = rand_sub(rng, n); subs = sub_list(sub, n)
             if sum(v * v for v in subs) <= (64 if big else 40): break
